@@ -330,8 +330,8 @@ def _norm_on(tokens):
 
 # ------------------------------------------------------------------ job lists
 MERGEABLE_ITEMS = ('cls', 'clsE', 'clsA', 'styE', 'sty', 'clk', 'clkA', 'onF')
-QUICK_ATTRS = ['S:2', 'J:3', 'B:5', 'E:3', 'cls', 'clsE', 'styE', 'clk', 'clkA', 'spI', 'spO', 'spC', 'on', 'ns', 'key', 'ref', 'obj', 'undef']
-MORE_ATTRS = ['E:5', 'S:5', 'clsA', 'sty', 'onF', 'non', 'lit', 'arr', 'arrow', 'mem', 'id', 'bool']
+QUICK_ATTRS = ['S:2', 'J:3', 'B:5', 'E:3', 'cls', 'clsE', 'styE', 'clk', 'clkA', 'spI', 'spO', 'spC', 'on', 'non', 'ns', 'key', 'ref', 'obj', 'undef']
+MORE_ATTRS = ['E:5', 'S:5', 'clsA', 'sty', 'onF', 'lit', 'arr', 'arrow', 'mem', 'id', 'bool']
 
 
 def jobs(tier):
